@@ -92,12 +92,11 @@ Qed.
 Lemma date_steps_low {A} y m d (K : Z -> outcome A) : y < -9223372036854775408 -> date_steps y m d K = Err OutOfRange.
 Proof. intros Hy. unfold date_steps. change (tmin I64 + 400) with (-9223372036854775408). replace (y <? -9223372036854775408) with true by lia. reflexivity. Qed.
 
-Lemma date_steps_spec {A} y m d (K : Z -> outcome A) :
+Lemma date_steps_full {A} y m d (K : Z -> outcome A) :
   -9223372036854775408 <= y <= 9223372036854775807 -> 1 <= m <= 12 -> 1 <= d <= 31 ->
-  exists G : bool, (G = true -> 9223372036854775807 - 719468 < days_from_civil y m d) /\
-    (G = false -> days_from_civil y m d <= 9223372036854775807) /\
-    date_steps y m d K =
-    if (days_from_civil y m d <? -9223372036854775808) || G then Err OutOfRange else K (days_from_civil y m d).
+  date_steps y m d K =
+  if (days_from_civil y m d <? -9223372036854775808) || (9223372036854775807 <? days_from_civil y m d)
+  then Err OutOfRange else K (days_from_civil y m d).
 Proof.
   intros Hy Hm Hd.
   set (b := if m <=? 2 then 1 else 0). assert (Hb : 0 <= b <= 1) by (unfold b; destruct (m <=? 2); lia).
@@ -112,7 +111,6 @@ Proof.
   assert (Edoe : doe_of y' era m d = doe).
   { unfold doe_of. cbv zeta. fold yoe. fold mm. rewrite !Z.quot_div_nonneg by lia. unfold doe. lia. }
   rewrite Edoe in HDe. rewrite HDe.
-  exists (63131837319416 <? era). split; [intros HG; lia|]. split; [intros HG; lia|].
   unfold date_steps. cbv zeta.
   change (tmin I64 + 400) with (-9223372036854775408). replace (y <? -9223372036854775408) with false by lia.
   fold b. rewrite arith_fits by fits_side. rewrite bind_ok. fold y'.
@@ -127,15 +125,7 @@ Proof.
     let mm := if 2 <? m then cast U32 (m - 3) else cast U32 (m + 9) in
     let doy := cast U32 (cast U32 (cast U32 (cast U32 (153 * mm) + 2) / 5 + d) - 1) in
     let doe := cast U32 (cast U32 (cast U32 (yoe * 365) + yoe / 4) - yoe / 100 + doy) in
-    hi <- cdiv I64 (tmax I64) 146097 ;;
-    lo <- cdiv I64 (tmin I64) 146097 ;;
-    if (hi <? era0) || (era0 <? lo) then Err OutOfRange else
-    off <- arith I32 (cast I32 doe - 719468) ;;
-    e1 <- arith I64 (era0 * 146097) ;;
-    lim <- arith I64 (tmin I64 - off) ;;
-    if (off <? 0) && (e1 <? lim) then Err OutOfRange else
-    days <- arith I64 (e1 + off) ;;
-    K days).
+    days_tail era0 doe K).
   { rewrite <- Eera. destruct (0 <=? y'); [reflexivity|]. destruct (arith I64 (y' - 399)); reflexivity. }
   rewrite bind_ok. cbv zeta.
   rewrite arith_fits by fits_side. rewrite bind_ok.
@@ -146,25 +136,19 @@ Proof.
   rewrite Emm.
   repeat match goal with |- context [cast U32 ?x] => rewrite (cast_fits U32 x) by fits_side end.
   fold doe.
-  clear Edoe HDe Eera Emm. clearbody doe yoe mm.
-  unfold cdiv. change (146097 =? 0) with false. cbv iota.
-  change (tmax I64) with 9223372036854775807. change (tmin I64) with (-9223372036854775808).
-  rewrite (arith_fits I64 (Z.quot 9223372036854775807 146097)) by (vm_compute; reflexivity). rewrite bind_ok.
-  rewrite (arith_fits I64 (Z.quot (-9223372036854775808) 146097)) by (vm_compute; reflexivity). rewrite bind_ok.
-  change (Z.quot 9223372036854775807 146097) with 63131837319416. change (Z.quot (-9223372036854775808) 146097) with (-63131837319416).
-  destruct (Z.ltb_spec 63131837319416 era) as [Hg|Hg]; cbn [orb]; [rewrite orb_true_r; reflexivity|].
-  rewrite orb_false_r.
-  destruct (Z.ltb_spec era (-63131837319416)) as [Hl|Hl].
-  - replace (era * 146097 + (doe - 719468) <? -9223372036854775808) with true by lia. reflexivity.
-  - rewrite (cast_fits I32 doe) by fits_side.
-    rewrite arith_fits by fits_side. rewrite bind_ok.
-    rewrite arith_fits by fits_side. rewrite bind_ok.
-    rewrite arith_fits by fits_side. rewrite bind_ok.
-    replace (doe - 719468 <? 0) with true by lia. cbn [andb].
-    destruct (Z.ltb_spec (era * 146097) (-9223372036854775808 - (doe - 719468))) as [Hlim|Hlim].
-    + replace (era * 146097 + (doe - 719468) <? -9223372036854775808) with true by lia. reflexivity.
-    + replace (era * 146097 + (doe - 719468) <? -9223372036854775808) with false by lia.
-      rewrite arith_fits by fits_side. rewrite bind_ok. reflexivity.
+  apply days_tail_spec; [unfold era; lia | lia].
+Qed.
+
+(* the earlier form of the statement (a flag for "beyond the upper end") *)
+Lemma date_steps_spec {A} y m d (K : Z -> outcome A) :
+  -9223372036854775408 <= y <= 9223372036854775807 -> 1 <= m <= 12 -> 1 <= d <= 31 ->
+  exists G : bool, (G = true -> 9223372036854775807 < days_from_civil y m d) /\
+    (G = false -> days_from_civil y m d <= 9223372036854775807) /\
+    date_steps y m d K =
+    if (days_from_civil y m d <? -9223372036854775808) || G then Err OutOfRange else K (days_from_civil y m d).
+Proof.
+  intros Hy Hm Hd. exists (9223372036854775807 <? days_from_civil y m d).
+  split; [intros H; lia|]. split; [intros H; lia|]. apply date_steps_full; assumption.
 Qed.
 
 (* ---------- SafeAddDuration of seconds / days / a rounded fraction, completely ---------- *)
